@@ -238,6 +238,19 @@ func collidingKeys(rng *rand.Rand, n int) [][]byte {
 	return keys
 }
 
+// midPairKeys returns pairs of long keys of equal length that differ only in their middle (same prefix, same suffix).
+func midPairKeys(rng *rand.Rand) [][]byte {
+	var ks [][]byte
+	for _, n := range []int{300, 513, 600, 1024, 5000}[rng.Intn(3):] {
+		a := make([]byte, n)
+		rng.Read(a)
+		c := append([]byte(nil), a...)
+		c[n/2] ^= byte(1 + rng.Intn(255))
+		ks = append(ks, a, c)
+	}
+	return ks
+}
+
 // keyAlphabet returns a small alphabet of hostile keys (no hash collisions).
 func keyAlphabet(rng *rand.Rand) [][]byte {
 	mk := func(n int) []byte {
